@@ -96,11 +96,11 @@ PROPS = {
                  "the call list. (e2) " + E2_RULE + "Thread 0 starts with a traversal racing writers/Clear/resizes; per-key pseudo-reads inside the linearizability check. " + LIN),
     "C08": instr([part("e1", "^TestC08E1$", 2500, 60000, steps=60, tsteps=90), part("e2", "^TestC08E2$", 350, 2000), part("long", "^TestC08L$", 40, 600)],
                  "Two engines. (e1) " + E1_RULE + "(e2) " + E2_RULE + "Oracle: at every quiescent point Size()/Count() == Range visits == successful Loads == model (maps), Count interval / exact after DeleteExpired / 0 after Clear (caches). " + LIN),
-    "C09": instr([part("e1", "^TestC09$", 2500, 60000, steps=60, tsteps=90), part("e2", "^TestC09E2$", 300, 1500)], "Two engines. (e1) " + E1_RULE + "Generator weighted to constructors (option lists in any order, with repeated options of which the last counts) x boundary TTLs/defaults x GetWithExpiration/GetWithTTL/SetDefaultExpiration. Oracle: exact instants from the TTL model. (e2) " + E2_RULE + "Weights on SetDefaultExpiration racing the calls that resolve the DefaultExpiration sentinel (SetDefault, Set/GetOrSet/GetAndSet/GetAndRefresh/GetOrCompute/Compute with the sentinel) and on GetWithTTL/GetWithExpiration/DefaultExpiration afterwards: a default set by a COMPLETED SetDefaultExpiration must govern every later sentinel write. " + LIN),
+    "C09": instr([part("e1", "^TestC09$", 2500, 60000, steps=60, tsteps=90), part("e2", "^TestC09E2$", 300, 1500)], "Two engines. (e1) " + E1_RULE + "Generator weighted to constructors (option lists in any order, with repeated options of which the last counts) x boundary TTLs/defaults x GetWithExpiration/GetWithTTL/SetDefaultExpiration. Oracle: exact instants from the TTL model. (e2) " + E2_RULE + "Weights on SetDefaultExpiration racing the calls that resolve the DefaultExpiration sentinel (SetDefault, Set/GetOrSet/GetAndSet/GetAndRefresh/GetOrCompute/Compute with the sentinel) and on GetWithTTL/GetWithExpiration/DefaultExpiration afterwards: a default set by a COMPLETED SetDefaultExpiration must govern every later sentinel write; under the ticking clock a concurrent GetWithTTL must report the time remaining at one of its OWN clock readings that is not older than the reading the entry's expiry was stamped from. " + LIN),
     "C16": instr([part("stall", "^TestC16$", 400, 20000)],
                  "Cases are generated programs of one modifying call W (every mutator, Clear, Range, grow-triggering insert and shrink-triggering delete via fill steering, "
                  "Compute/GetOrCompute/LoadOrCompute whose user function calls vs.Park()) and 1-3 lookups R (Load, hit path of LoadOrStore/LoadOrCompute on a stable key, "
-                 "Get, GetWithExpiration, GetWithTTL, Size/Count) on the same key, bucket mates (density / colliding hashers) and unrelated keys, present-and-unexpired or absent; "
+                 "Get, GetWithExpiration, GetWithTTL, Size/Count) on the same key, bucket mates (density / colliding hashers) and unrelated keys, present-and-unexpired (TTLs: none, 1 ms, 5 us, and two that wrap around int64 so that the stored stamp is negative = never expires) or absent; "
                  "x a sweep: W is stalled at EVERY one of its scheduling points in turn, and inside its user function, while R runs alone. evaluations = executions. "
                  "Oracle: R never blocks (mutex/cond), never yields (spin), stays within 4x its quiescent step count + 64 of its own steps (decider 'stall'), and the complete "
                  "history is linearizable. Non-trivial = W was stalled strictly inside its call while R executed; distinct by hash(program, stall point). "),
